@@ -384,6 +384,9 @@ func c09OnPath(c *fw.Case) (o fw.Outcome) {
 		case 1:
 			cont = blockyBytes(r, []int{127, 128, 255, 256, 257, 1000, 2000, 4095}[r.Intn(8)])
 		}
+		if cont != nil {
+			cont = shapeBytes(r, "NASMessageContainer", cont)
+		}
 		b = nasTestpacket.GetRegistrationRequest(regType, suci, nssai, cap, c5, cont, uds)
 		exps = func(p *refnas.Parsed) []expect {
 			e := []expect{
@@ -439,6 +442,7 @@ func c09OnPath(c *fw.Case) (o fw.Outcome) {
 		if r.Intn(3) == 0 {
 			cont = blockyBytes(r, []int{127, 128, 255, 256, 257, 1000, 2000, 4095}[r.Intn(8)])
 		}
+		cont = shapeBytes(r, "NASMessageContainer", cont) // what the container really carries: a NAS message, plain or protected
 		b = nasTestpacket.GetSecurityModeComplete(cont)
 		exps = func(p *refnas.Parsed) []expect {
 			e := []expect{{"NAS message container (71)", must(p, "NASMessageContainer"), cont}}
